@@ -21,6 +21,7 @@ RULE = (
     "integer lists, strides), scaled, re-assembled by concatenate / hstack / append in a drawn arrangement that may use a piece several "
     "times; the scatter model gives the source position of every output slot (vjp == bincount, jvp == the same arrangement of the tangent)."
     ' int_cotangent: integer cotangents through dense-and-gathered uses in four orders (raise, or 2 g + scatter(g)).'
+    ' container_params: 2-3 arrays in a dict / list / tuple, 3-6 terms (indexed with repeats, dense, tied by E + F / E * F) in a drawn order. lowprec: float32 / float16 arrays with same-precision or float64 partners, indexed and dense terms in a drawn order, against the float64 sum of contributions.'
 )
 
 
